@@ -119,6 +119,9 @@ def quadratic_length_closed_form_is_an_antiderivative_of_the_speed(c):
         return _concrete(c, P, seg, t0, t1)
     _install(c, P, t0, t1, st)
     s = c.callm(seg, 'length', t0, t1)
+    c.ensures('the-closed-form-branch-is-taken-in-generic-position', 'm_t1' in st and 'm_t0' in st)
+    if 'm_t1' not in st or 'm_t0' not in st:
+        return
     m1 = st['m_t1']
     ds = c.ddt(s, t1)
     C2, C1, C0, B, G, w = st['C2'], st['C1'], st['C0'], st['B'], st['G'], st['w']
